@@ -21,7 +21,6 @@ NA = {
  "C19": "not claimed: recursion over arbitrary nested Python values (TypeRegistry dispatch, map_nested_value) needs an inductive datatype encoding of Python objects that the VC generator does not have; planned kernel not built",
  "C21": "not claimed: upstream dataflow contracts (get_upstreams, _record_args rows) planned in DESIGN §8 were not built",
  "C23": "not claimed: serializer round-trip contracts and the closure property of record transfer planned in DESIGN §8 were not built",
- "C24": "not claimed: the statement is about histories of tag operations (multiset semantics over SQL rows); DESIGN §8 planned only a bounded stand-in, which was not built",
  "C36": "behaviour lives in Alembic DDL/DML executed by the database engine; no Python function whose contract states row preservation",
 }
 
